@@ -86,6 +86,7 @@ def runSeq (c : CaseIn) : Array String := Id.run do
         (parseRes r).map fun r =>
           let ret : BRet := if hang then .hang else if obs == "ok" then .ok else if obs == "stopped" then .stopped else .err
           (some (.bcast (txOf (nat! i)) r), some (.bcast (txOf (nat! i)) r ret))
+      | ["closesub"] => some (some .closeSub, some .closeSub)
       | ["quit"] => some (some .stop, some (.stop hang))
       | ["stopret"] => some (none, some (.stop hang))
       | _ => none
